@@ -341,7 +341,7 @@ pub proof fn lemma_remove_missing(s: St, a: PathV)
 }
 //@ obligation lemma_remove_missing props=C01,C03
 
-//@ item remove file=src/sys/fs/memfs/vfs.rs block="impl VirtualFileSystem for Memfs" fn=remove props=C01,C03,C10,C05,C12
+//@ item remove file=src/sys/fs/memfs/vfs.rs block="impl VirtualFileSystem for Memfs" fn=remove props=C01,C03,C10,C05,C12,C20
 //@ sig fn remove<T: AsRef<Path>>(&self, path: T) -> RvResult<()>
 //@ ins after ⟦_abs(guard, path)?;⟧
         let ghost s0 = guard.st();
@@ -407,7 +407,7 @@ pub fn set_cwd(guard: &mut MemfsGuard, path: &PathBuf) -> (r: RvResult<PathBuf>)
         }),
 //@ body
 
-//@ item mkfile file=src/sys/fs/memfs/vfs.rs block="impl VirtualFileSystem for Memfs" fn=mkfile props=C01,C03,C05,C12
+//@ item mkfile file=src/sys/fs/memfs/vfs.rs block="impl VirtualFileSystem for Memfs" fn=mkfile props=C01,C03,C05,C12,C20
 //@ sig fn mkfile<T: AsRef<Path>>(&self, path: T) -> RvResult<PathBuf>
 pub fn mkfile(guard: &mut MemfsGuard, path: &PathBuf) -> (r: RvResult<PathBuf>)
     requires wf(old(guard).st()),
@@ -577,7 +577,7 @@ pub open spec fn link_entry(a: PathV, b: PathV, to_dir: bool) -> EntryV {
              follow: false, cached: false, kids: if to_dir { Some(Set::<Name>::empty()) } else { None } }
 }
 
-//@ item _symlink file=src/sys/fs/memfs/vfs.rs block="impl Memfs" fn=_symlink props=C10,C01,C03,C05,C12,C16
+//@ item _symlink file=src/sys/fs/memfs/vfs.rs block="impl Memfs" fn=_symlink props=C10,C01,C03,C05,C12,C16,C20
 //@ ins after ⟦_abs(guard, link)?;⟧
         let ghost s0 = guard.st();
         proof { link.ax_abs(); }
@@ -610,7 +610,7 @@ pub fn _symlink(guard: &mut MemfsGuard, link: &PathBuf, target: &PathBuf) -> (r:
         }),
 //@ body
 
-//@ item symlink file=src/sys/fs/memfs/vfs.rs block="impl VirtualFileSystem for Memfs" fn=symlink props=C10,C01,C03,C05,C12,C16
+//@ item symlink file=src/sys/fs/memfs/vfs.rs block="impl VirtualFileSystem for Memfs" fn=symlink props=C10,C01,C03,C05,C12,C16,C20
 pub fn symlink(guard: &mut MemfsGuard, link: &PathBuf, target: &PathBuf) -> (r: RvResult<PathBuf>)
     requires wf(old(guard).st()),
     ensures
@@ -777,7 +777,7 @@ pub fn vec_clone_from(a: &mut Vec<u8>, b: &Vec<u8>) ensures final(a)@ == b@ { un
 
 impl MemfsFile {
     pub open spec fn bound_ok(&self) -> bool { self.path is Some ==> self.path->Some_0.abs_clean() }
-//@ item h_sync file=src/sys/fs/memfs/file.rs block="impl MemfsFile" fn=sync props=C07,C06,C03,C12,C01
+//@ item h_sync file=src/sys/fs/memfs/file.rs block="impl MemfsFile" fn=sync props=C07,C06,C03,C12,C01,C20
 //@ sig pub(crate) fn sync(&mut self) -> io::Result<()>
 //@ rw R11 1 ⟦let mut guard = fs.write_guard();⟧ => ⟦⟧
 //@ rw R4 * ⟦f.data.clone_from(&self.data);⟧ => ⟦vec_clone_from(&mut f.data, &self.data);⟧
@@ -872,7 +872,7 @@ pub proof fn lemma_put_wf(s: St, a: PathV, data: Seq<u8>)
 //@ obligation lemma_put_wf props=C03
 pub open spec fn put(s: St, a: PathV, data: Seq<u8>) -> St { St { files: s.files.insert(a, FileV { data: data, pos: s.files[a].pos }), ..s } }
 
-//@ item write_all file=src/sys/fs/memfs/vfs.rs block="impl VirtualFileSystem for Memfs" fn=write_all props=C06,C01,C03,C05,C12
+//@ item write_all file=src/sys/fs/memfs/vfs.rs block="impl VirtualFileSystem for Memfs" fn=write_all props=C06,C01,C03,C05,C12,C20
 //@ sig fn write_all<T: AsRef<Path>, U: AsRef<[u8]>>(&self, path: T, data: U) -> RvResult<()>
 //@ rw R12 1 ⟦let mut f = self.write(path)?;⟧ => ⟦let mut f = write(fs, guard, path)?;⟧
 //@ rw R12 1 ⟦f.write_all(data.as_ref())?;⟧ => ⟦file_write_all(&mut f, data)?;⟧
@@ -904,7 +904,7 @@ pub fn write_all(fs: &Memfs, guard: &mut MemfsGuard, path: &PathBuf, data: &[u8]
         }),
 //@ body
 
-//@ item append_all file=src/sys/fs/memfs/vfs.rs block="impl VirtualFileSystem for Memfs" fn=append_all props=C06,C01,C03,C05,C12
+//@ item append_all file=src/sys/fs/memfs/vfs.rs block="impl VirtualFileSystem for Memfs" fn=append_all props=C06,C01,C03,C05,C12,C20
 //@ sig fn append_all<T: AsRef<Path>, U: AsRef<[u8]>>(&self, path: T, data: U) -> RvResult<()>
 //@ rw R12 1 ⟦let mut f = self.append(path)?;⟧ => ⟦let mut f = append(fs, guard, path)?;⟧
 //@ rw R12 1 ⟦f.write_all(data.as_ref())?;⟧ => ⟦file_write_all(&mut f, data)?;⟧
@@ -1111,7 +1111,7 @@ pub proof fn lemma_mkdir_err(s0: St, a: PathV, mode: Option<u32>, j: nat)
 }
 //@ obligation lemma_mkdir_err props=C01
 
-//@ item mkdir_p file=src/sys/fs/memfs/vfs.rs block="impl VirtualFileSystem for Memfs" fn=mkdir_p props=C01,C03,C05,C12
+//@ item mkdir_p file=src/sys/fs/memfs/vfs.rs block="impl VirtualFileSystem for Memfs" fn=mkdir_p props=C01,C03,C05,C12,C20
 //@ ins after ⟦_abs(guard, path)?;⟧
         let ghost s0 = guard.st();
         proof { assert forall|j: nat| 1 <= j <= abs@.len() && mk_err(s0, abs@, None, (j - 1) as nat) is None && #[trigger] step_err(s0, abs@, None, j) is Some
@@ -1133,7 +1133,7 @@ pub fn mkdir_p(guard: &mut MemfsGuard, path: &PathBuf) -> (r: RvResult<PathBuf>)
         }),
 //@ body
 
-//@ item mkdir_m file=src/sys/fs/memfs/vfs.rs block="impl VirtualFileSystem for Memfs" fn=mkdir_m props=C01,C03,C05,C11,C12
+//@ item mkdir_m file=src/sys/fs/memfs/vfs.rs block="impl VirtualFileSystem for Memfs" fn=mkdir_m props=C01,C03,C05,C11,C12,C20
 //@ ins after ⟦_abs(guard, path)?;⟧
         let ghost s0 = guard.st();
         proof { assert forall|j: nat| 1 <= j <= abs@.len() && mk_err(s0, abs@, Some(mode), (j - 1) as nat) is None && #[trigger] step_err(s0, abs@, Some(mode), j) is Some
@@ -2038,7 +2038,7 @@ pub fn buf_lines(f: MemfsFile) -> (r: DeIter<RvResult<Str>>)
                 r.rest().len() == ls.len() && forall|i: int| 0 <= i < ls.len() ==> (#[trigger] r.rest()[i]) is Ok && r.rest()[i]->Ok_0@ == ls[i] })
 { unimplemented!() }
 
-//@ item read_all file=src/sys/fs/memfs/vfs.rs block="impl VirtualFileSystem for Memfs" fn=read_all props=C06,C01,C05,C12
+//@ item read_all file=src/sys/fs/memfs/vfs.rs block="impl VirtualFileSystem for Memfs" fn=read_all props=C06,C01,C05,C12,C20
 //@ rw R11 1 ⟦self.read(path)⟧ => ⟦read(guard, path)⟧
 //@ rw R1 * ⟦String::new()⟧ => ⟦Str::new()⟧
 //@ ins before ⟦file.read_to_string(&mut buf)?;⟧
@@ -2070,7 +2070,7 @@ pub fn read_at0(guard: &MemfsGuard, path: &PathBuf) -> (r: RvResult<MemfsFile>)
     proof { if r is Ok { assert(r->Ok_0.data@.skip(0) =~= r->Ok_0.data@); } }
     r
 }
-//@ item read_lines file=src/sys/fs/memfs/vfs.rs block="impl VirtualFileSystem for Memfs" fn=read_lines props=C06,C01,C05,C12
+//@ item read_lines file=src/sys/fs/memfs/vfs.rs block="impl VirtualFileSystem for Memfs" fn=read_lines props=C06,C01,C05,C12,C20
 //@ rw R9 1 ⟦let mut lines = vec![];⟧ => ⟦let mut lines: Vec<Str> = Vec::new();⟧
 //@ rw R4 * ⟦BufReader::new(self.read(path)?).lines()⟧ => ⟦buf_lines(read_at0(guard, path)?)⟧
 //@ rw R3 1 for
